@@ -12,10 +12,15 @@ open Rf24 Nrf.Net
     calls them: on a radio configured as a transmitter (PWR_UP, PRIM_RX clear — `listen = False`
     ran), without ACK payloads (EN_ACK_PAY clear), dynamic payloads on in the driver's shadow, an
     idle transmitter (`TxS`: TX FIFO empty or MAX_RT latched *and visible in the cached status
-    byte*, no ACK payload queued) and a payload of 1..32 bytes: the call **returns** (the polling loop `while not status & 0x30` ends within
-    `POLL_FUEL` polls, no exception), the transmitter is idle again afterwards, and the RX FIFO
-    did not grow (its entries are entries it had before).  In any world: any fault list, any
-    other radios. -/
+    byte*, no ACK payload queued, at most three entries queued, RX FIFO entries tagged with pipe
+    numbers 0..5) and a payload of 1..32 bytes: the call **returns** (the polling loop
+    `while not status & 0x30` ends within `POLL_FUEL` polls, no exception), the transmitter is
+    idle again afterwards, and the RX FIFO did not grow (its entries are entries it had before).
+    In any world: any fault list, any other radios.
+
+    **Proved**: `c15contracts` (`NrfProofs/C15Discharge.lean`).  The last two clauses of `TxS`
+    (FIFO depth, pipe tags) were added when the contracts were discharged: without them both
+    contracts are false on (unreachable) model states — `tools/c15_contract_counterexamples.lean`. -/
 structure L3Contracts : Prop where
   send_ok : ∀ (s : DrvState) (buf : Bytes), s.Wf → s.cfg.config &&& 3 = 2 → s.cfg.feature &&& 2 = 0 →
     s.d.dynPl &&& 1 ≠ 0 → 1 ≤ buf.length → buf.length ≤ 32 → TxS s →
